@@ -104,7 +104,7 @@ def errName : Err → String
   | .attributeError => "AttributeError" | .unsupported => "unsupported"
 
 /-- execute one JSON operation on a side; returns the new side and the log entries it produced -/
-def exec (s : Side) (j : Json) : Except String (Side × List (Nat × String)) := do
+def execOne (s : Side) (j : Json) : Except String (Side × List (Nat × String)) := do
   let op ← parseOp s j
   match step s.w op with
   | .error e => throw s!"operation outside the modelled fragment ({errName e}): {repr op}"
@@ -114,6 +114,16 @@ def exec (s : Side) (j : Json) : Except String (Side × List (Nat × String)) :=
       | .new .. => s.handles ++ [w'.objs.length - 1]
       | _ => s.handles
     pure ({ s with w := w', handles := handles }, newLog)
+
+/-- `within`: the body's assignments are made inside a `batch_call_watchers` / `discard_events` context opened on
+ANOTHER object than the ones assigned (the harness sees to that): batching is a matter of the object whose parameter is
+set, so for the model the context is not there and the body is a sequence of plain assignments -/
+def exec (s : Side) (j : Json) : Except String (Side × List (Nat × String)) := do
+  if (← getStr j "op") = "within" then
+    (← getArr j "body").toList.foldlM (fun (acc : Side × List (Nat × String)) b => do
+      let (s', l) ← execOne acc.1 b
+      pure (s', acc.2 ++ l)) (s, [])
+  else execOne s j
 
 /-! JSON of observations -/
 
@@ -155,9 +165,14 @@ def jPost (p : PostObs) : Json := Json.mkObj [
   ("twin", jOpt (fun (t : List (Nat × String) × Snap) => Json.mkObj [
       ("log", Json.arr (t.1.map fun e => Json.arr #[toJson e.1, Json.str e.2]).toArray), ("snap", jSnap t.2)]) p.twin)]
 
-def jObs (o : Obs) : Json := Json.mkObj [
+def jLog (l : List (Nat × String)) : Json := Json.arr (l.map fun e => Json.arr #[toJson e.1, Json.str e.2]).toArray
+
+def jObs (o : Obs) : Json := Json.mkObj ([
   ("copy_err", jOpt Json.str o.copyErr), ("orig_at", jSnap o.origAt), ("copy_at", jOpt jSnap o.copyAt),
-  ("shared", toJson o.shared), ("post", Json.arr (o.post.map jPost).toArray)]
+  ("shared", toJson o.shared), ("post", Json.arr (o.post.map jPost).toArray)] ++
+  (match o.batchExit with
+   | some (g, t) => [("batch_exit", Json.mkObj [("got", jLog g), ("twin", jLog t)])]
+   | none => []))
 
 def pVal (j : Json) : Except String SVal :=
   match j with
@@ -247,7 +262,15 @@ def pObs (j : Json) : Except String Obs := do
                         | some s => do pure (some (← pSnap s))
                         | none => pure none),
            shared := ← getNat j "shared",
-           post := ← (← getArr j "post").toList.mapM pPost }
+           post := ← (← getArr j "post").toList.mapM pPost,
+           batchExit := ← (match getOpt j "batch_exit" with
+                           | some b => do
+                             let pl := fun (x : Json) => do
+                               (← x.getArr?).toList.mapM fun e => do
+                                 let a ← e.getArr?
+                                 pure (← a[0]!.getNat?, ← a[1]!.getStr?)
+                             pure (some (← pl (← b.getObjVal? "got"), ← pl (← b.getObjVal? "twin")))
+                           | none => pure none) }
 
 def parsePolicy : String → Except String Policy
   | "always" => pure .always | "own" => pure .own | "unbound" => pure .unbound
@@ -264,12 +287,26 @@ def handle (req : Json) : Except String Json := do
                       clsSlots := selParams.zipIdx.map fun ((k, n), i) => (k, n, 2 * i, 2 * i + 1) }
   let pre := (← getArr case "pre").toList
   let runPre (s : Side) : Except String Side := pre.foldlM (fun s j => do pure (← exec s j).1) s
-  let main ← runPre { w := w0 }
+  let inbatch := (getOpt case "inbatch").bind (·.getBool?.toOption) == some true
+  -- `inbatch`: the implementation takes the copy inside the batch of the last pre operation; the model sees the
+  -- completed batch, and says what that batch delivers
+  let (main, lastLog) ← if inbatch then do
+      let m ← pre.dropLast.foldlM (fun s j => do pure (← exec s j).1) ({ w := w0 } : Side)
+      match pre.getLast? with
+      | some j => exec m j
+      | none => throw "inbatch without a pre operation"
+    else do pure (← runPre { w := w0 }, [])
   let twin ← runPre { w := w0 }
   let rootJ ← case.getObjVal? "root"
   let root ← resolveRef main rootJ
   let troot ← resolveRef twin rootJ
   let origAt := snapshot main.w root
+  let batchExit : Option (List (Nat × String) × List (Nat × String)) :=
+    if inbatch then
+      let order := visitOrder main.w root
+      let l := lastLog.map fun e => (labelOf order e.1, e.2)
+      some (l, l)
+    else none
   if !wfB main.w then throw "model world is not well-formed (a reference points outside the world)"
   if !ownWatchersB main.w then throw "model world is not well-formed (a watcher is registered on another object than its inst)"
   let mut branches : List String := []
@@ -277,7 +314,7 @@ def handle (req : Json) : Except String Json := do
     | .error .unsupported => throw "copy outside the modelled fragment"
     | .error e =>
       branches := [s!"copy:{errName e}"]
-      pure { copyErr := some (errName e), origAt := origAt, copyAt := none, shared := 0, post := [] }
+      pure { copyErr := some (errName e), origAt := origAt, copyAt := none, shared := 0, post := [], batchExit := batchExit }
     | .ok (w1, croot) =>
       branches := ["copy:ok"]
       let main1 : Side := { main with w := w1, cp := some croot }
@@ -297,7 +334,7 @@ def handle (req : Json) : Except String Json := do
           pure (m', t', po :: l))
         (main1, twin1, [])
       pure { copyErr := none, origAt := origAt, copyAt := some (snapshot w1 croot),
-             shared := sharedCount w1 root croot, post := revPost.reverse }
+             shared := sharedCount w1 root croot, post := revPost.reverse, batchExit := batchExit }
   let impl ← pObs (← req.getObjVal? "impl")
   let (nImpl, sImpl) := specOK impl
   let (_, sModel) := specOK model
